@@ -11,10 +11,10 @@ use crate::ignore_directives::{
 };
 use crate::linter::LinterContext;
 use crate::rules;
-use deno_ast::swc::ast::Expr;
-use deno_ast::swc::common::comments::Comment;
-use deno_ast::swc::common::util::take::Take;
-use deno_ast::swc::common::{SourceMap, SyntaxContext};
+use deno_ast::swc::ast::{Expr, Ident};
+use deno_ast::swc::common::comments::{Comment, CommentKind};
+use deno_ast::swc::common::{FileName, Mark, SourceMap, SyntaxContext};
+use deno_ast::swc::parser::{parse_file_as_expr, Syntax};
 use deno_ast::SourceTextInfo;
 use deno_ast::{
   view as ast_view, ParsedSource, RootNode, SourcePos, SourceRange,
@@ -24,6 +24,81 @@ use deno_ast::{MultiThreadedComments, Scope};
 use std::borrow::Cow;
 use std::collections::{HashMap, HashSet};
 use std::rc::Rc;
+
+/// The texts of the last acceptable `@jsx` and `@jsxFrag` pragmas in the
+/// leading block comments of a file, found the way swc's
+/// `JsxDirectives::from_comments` finds them. That function itself is not
+/// used: it panics on a pragma it does not accept, such as `@jsxRuntime foo`
+/// or `@jsx a..b`, and a comment must never be able to stop the linter.
+fn jsx_pragmas(comments: &[Comment]) -> (Option<&str>, Option<&str>) {
+  let mut pragma = None;
+  let mut pragma_frag = None;
+  for comment in comments {
+    if comment.kind != CommentKind::Block {
+      continue;
+    }
+    for line in comment.text.lines() {
+      let mut line = line.trim();
+      if let Some(rest) = line.strip_prefix('*') {
+        line = rest.trim();
+      }
+      if !line.starts_with("@jsx") {
+        continue;
+      }
+      let mut words = line.split_whitespace();
+      while let Some(name) = words.next() {
+        match (name, words.next()) {
+          ("@jsx", Some(text)) if is_jsx_factory(text) => pragma = Some(text),
+          ("@jsxFrag", Some(text)) if is_jsx_factory(text) => {
+            pragma_frag = Some(text)
+          }
+          _ => {}
+        }
+      }
+    }
+  }
+  (pragma, pragma_frag)
+}
+
+/// Whether `text` can name a JSX factory: identifier characters and dots only,
+/// and an expression such as `h` or `React.createElement`.
+fn is_jsx_factory(text: &str) -> bool {
+  if !text.starts_with(Ident::is_valid_start)
+    || !text.chars().all(|c| Ident::is_valid_continue(c) || c == '.')
+  {
+    return false;
+  }
+  let source_file = SourceMap::default()
+    .new_source_file(FileName::Anon.into(), text.to_string());
+  parse_file_as_expr(
+    &source_file,
+    Syntax::default(),
+    Default::default(),
+    None,
+    &mut Vec::new(),
+  )
+  .is_ok()
+}
+
+#[allow(clippy::redundant_allocation)] // This type comes from SWC.
+fn parse_jsx_factory(
+  name: &str,
+  text: &str,
+  top_level_mark: Mark,
+) -> Option<Rc<Box<Expr>>> {
+  // `parse_expr_for_jsx` panics on text that is not an expression.
+  if !is_jsx_factory(text) {
+    return None;
+  }
+  Some(Rc::new(
+    deno_ast::swc::transforms::react::parse_expr_for_jsx(
+      &SourceMap::default(),
+      name,
+      Rc::new(text.to_string()),
+      top_level_mark,
+    ),
+  ))
+}
 
 /// `Context` stores all data needed to perform linting of a particular file.
 pub struct Context<'a> {
@@ -66,41 +141,23 @@ impl<'a> Context<'a> {
       let top_level_mark = marks.top_level;
 
       if let Some(leading_comments) = parsed_source.get_leading_comments() {
-        let jsx_directives =
-          deno_ast::swc::transforms::react::JsxDirectives::from_comments(
-            &SourceMap::default(),
-            #[allow(clippy::disallowed_types)]
-            deno_ast::swc::common::Span::dummy(),
-            leading_comments,
-            top_level_mark,
-          );
-
-        jsx_factory = jsx_directives.pragma;
-        jsx_fragment_factory = jsx_directives.pragma_frag;
+        let (pragma, pragma_frag) = jsx_pragmas(leading_comments);
+        jsx_factory = pragma
+          .and_then(|text| parse_jsx_factory("jsx", text, top_level_mark));
+        jsx_fragment_factory = pragma_frag.and_then(|text| {
+          parse_jsx_factory("jsxFragment", text, top_level_mark)
+        });
       }
 
       if jsx_factory.is_none() {
         if let Some(factory) = default_jsx_factory {
-          jsx_factory = Some(Rc::new(
-            deno_ast::swc::transforms::react::parse_expr_for_jsx(
-              &SourceMap::default(),
-              "jsx",
-              Rc::new(factory),
-              top_level_mark,
-            ),
-          ));
+          jsx_factory = parse_jsx_factory("jsx", &factory, top_level_mark);
         }
       }
       if jsx_fragment_factory.is_none() {
         if let Some(factory) = default_jsx_fragment_factory {
-          jsx_fragment_factory = Some(Rc::new(
-            deno_ast::swc::transforms::react::parse_expr_for_jsx(
-              &SourceMap::default(),
-              "jsxFragment",
-              Rc::new(factory),
-              top_level_mark,
-            ),
-          ));
+          jsx_fragment_factory =
+            parse_jsx_factory("jsxFragment", &factory, top_level_mark);
         }
       }
     });
